@@ -1,6 +1,7 @@
 package main
 
 import (
+	"bytes"
 	"context"
 	"encoding/json"
 	"runtime"
@@ -30,6 +31,10 @@ type ServeScenario struct {
 	Reply bool `json:"reply,omitempty"`
 	// Topic of the inbound messages (default "in"); scenarios also use names with multi-byte UTF-8 characters
 	Topic string `json:"topic,omitempty"`
+	// MaxPayload: the client's MaxPayloadLen (a limit on what the application may PUBLISH; what the broker sends is
+	// within it here); PayloadLen: inbound payloads are padded to this many bytes
+	MaxPayload int `json:"maxPayload,omitempty"`
+	PayloadLen int `json:"payloadLen,omitempty"`
 	// Faults: write faults on the client's acknowledgements (e.g. the first PUBCOMP cannot be written: cutBefore)
 	Faults []netsim.FaultRule `json:"faults,omitempty"`
 	// Batch: several scenarios in one line (amortises process/JSON overhead)
@@ -68,6 +73,7 @@ func runServe(sc *ServeScenario) *ServeResult {
 	res := &ServeResult{ID: sc.ID, Handler: sc.Handler, Faulty: len(sc.Faults) > 0, TL: [][]interface{}{}}
 	w := netsim.NewWorld(netsim.Plan{Writes: append([]netsim.FaultRule{}, sc.Faults...)})
 	w.AutoRelease = false
+	w.MaxPayloadLen = sc.MaxPayload
 	ctx, cancel := context.WithTimeout(context.Background(), 5*time.Second)
 	defer cancel()
 	cli, err := w.Dial(ctx)
@@ -103,7 +109,11 @@ func runServe(sc *ServeScenario) *ServeResult {
 			if topic == "" {
 				topic = "in"
 			}
-			w.Send(t, netsim.Publish(topic, netsim.PayloadOf(i+1), l.Q, l.ID, l.Dup, false))
+			pl := netsim.PayloadOf(i + 1)
+			if sc.PayloadLen > len(pl)+1 {
+				pl = append(append(pl, ':'), bytes.Repeat([]byte{'.'}, sc.PayloadLen-len(pl)-1)...)
+			}
+			w.Send(t, netsim.Publish(topic, pl, l.Q, l.ID, l.Dup, false))
 		case "REL":
 			w.Send(t, netsim.Ack(0x62, l.ID))
 		}
